@@ -142,7 +142,7 @@ func exec(r run) (out string, err error) {
 			out = buf.String()
 		}
 	}()
-	files := r.T.files(r.Entry != "import" && r.Entry != "import-retry")
+	files := r.T.files(r.Entry != "import" && !strings.HasPrefix(r.Entry, "import-retry"))
 	opts := interp.Options{Stdout: &buf, Stderr: &bytes.Buffer{}}
 	if r.FS == "disk" {
 		os.RemoveAll(filepath.Join(scratch, "gp"))
@@ -165,29 +165,54 @@ func exec(r run) (out string, err error) {
 	i := interp.New(opts)
 	i.Use(h.Exports(&buf, &steps))
 	switch r.Entry {
-	case "import-retry":
-		// first attempt with the sources of the last package missing (it fails), then the package appears and the same
-		// interpreter imports again: a failed import must not poison later ones
-		mfs := opts.SourcecodeFilesystem.(fstest.MapFS)
-		held := map[string]*fstest.MapFile{}
+	case "import-retry", "import-retry-file", "import-retry-nogo", "import-retry-syntax":
+		// first attempt with the last package broken (sources missing / a regular file where its directory should be / a
+		// directory without Go files / a file that does not parse): it fails; then the package is put in place and the same
+		// interpreter imports again: a failed import must not poison later ones (no false "import cycle")
 		lastDir := ""
 		for _, pk := range r.T.Pkgs {
 			if pk.Dir != r.T.Main {
-				lastDir = "gp/src/" + pk.Dir + "/"
+				lastDir = pk.Dir
 			}
 		}
-		for p, f := range mfs {
-			if strings.HasPrefix(p, lastDir) {
-				held[p] = f
-				delete(mfs, p)
+		var remove func(rel string)
+		var write func(rel, content string)
+		if r.FS == "disk" {
+			remove = func(rel string) { os.RemoveAll(filepath.Join(scratch, "gp", "src", filepath.FromSlash(rel))) }
+			write = func(rel, content string) {
+				full := filepath.Join(scratch, "gp", "src", filepath.FromSlash(rel))
+				os.MkdirAll(filepath.Dir(full), 0o755)
+				os.WriteFile(full, []byte(content), 0o644)
 			}
+		} else {
+			mfs := opts.SourcecodeFilesystem.(fstest.MapFS)
+			remove = func(rel string) {
+				for p := range mfs {
+					if p == "gp/src/"+rel || strings.HasPrefix(p, "gp/src/"+rel+"/") {
+						delete(mfs, p)
+					}
+				}
+			}
+			write = func(rel, content string) { mfs["gp/src/"+rel] = &fstest.MapFile{Data: []byte(content)} }
+		}
+		remove(lastDir)
+		switch r.Entry {
+		case "import-retry-file":
+			write(lastDir, "not a directory\n")
+		case "import-retry-nogo":
+			write(lastDir+"/README.txt", "no Go files here\n")
+		case "import-retry-syntax":
+			write(lastDir+"/f.go", "package "+last(lastDir)+"\n\nfunc {\n")
 		}
 		if _, e := i.Eval(fmt.Sprintf("import %q", r.T.Main)); e == nil {
-			return buf.String(), fmt.Errorf("HARNESS: the import succeeded although %s is missing", lastDir)
+			return buf.String(), fmt.Errorf("HARNESS: the import succeeded although %s is broken (%s)", lastDir, r.Entry)
 		}
 		buf.Reset()
-		for p, f := range held {
-			mfs[p] = f
+		remove(lastDir)
+		for p, src := range files {
+			if strings.HasPrefix(p, lastDir+"/") {
+				write(p, src)
+			}
 		}
 		_, err = i.Eval(fmt.Sprintf("import %q", r.T.Main))
 	case "import":
@@ -433,7 +458,11 @@ func main() {
 		if !resolvable || t.Cycle || len(t.Pkgs) < 2 || !strings.HasPrefix(t.Name, "F3 ") {
 			continue
 		}
-		runs = append(runs, run{T: t, Entry: "import-retry", FS: "mapfs"})
+		for _, e := range []string{"import-retry", "import-retry-file", "import-retry-nogo", "import-retry-syntax"} {
+			for _, f := range []string{"mapfs", "disk"} {
+				runs = append(runs, run{T: t, Entry: e, FS: f})
+			}
+		}
 	}
 	res := par.Map(len(runs), func(i int) *fail { return one(runs[i]) }, par.Opts{})
 	os.RemoveAll(filepath.Join(root, ".work", "c16"))
